@@ -197,6 +197,16 @@ class Unit:
             verdict = "discharged"
         elif r == z3.sat:
             verdict, model = "refuted", s.model()
+            small = (info or {}).get("small")
+            if small:      # prefer a counter-model with small dimensions (replayable)
+                for bound in (4, 12):
+                    s.push()
+                    s.add(*[z3.And(t <= bound, t >= -bound) for t in small if isinstance(t, z3.ExprRef)])
+                    if s.check() == z3.sat:
+                        model = s.model()
+                        s.pop()
+                        break
+                    s.pop()
         else:
             # second back end: cvc5 on the SMT-LIB2 export
             r2 = cvc5_check(s, self.timeout_ms)
